@@ -6,7 +6,7 @@ S=${1:-/tmp/gldap-verif/dev}
 RACE=$2
 mkdir -p $S
 rm -rf $S/repo $S/h
-rsync -a --exclude .git /repo/ $S/repo/
+rsync -a --exclude .git ${REPO:-/repo}/ $S/repo/
 mkdir -p $S/repo/simrt
 cp /verif/simrt/*.go $S/repo/simrt/
 cp /verif/simrt/export_gldap.go.txt $S/repo/zz_simexport.go
